@@ -21,6 +21,9 @@ type Clause struct {
 	Top  bool
 	File string
 	Line int
+	// Assumed: an `assumed-ensures` clause of a func contract - exported to callers, not checked against the body
+	// (the part of the function's meaning the contracts cannot define); listed in the evidence
+	Assumed bool
 }
 
 type modKind int
@@ -55,6 +58,7 @@ type CallAssert struct {
 	Clause  Clause
 	After   bool
 	Direct  bool // CALLEE! : only calls written in the function under contract itself, not in inlined callees
+	Forbid  bool // `forbid CALLEE`: the function must not make such a call at all (no binding required)
 }
 
 type Contract struct {
@@ -300,7 +304,7 @@ var clauseKeywords = map[string]bool{
 	"lemma": true, "requires": true, "ensures": true, "top-ensures": true, "modifies": true, "allocates": true,
 	"panics": true, "abstract": true, "nosafety": true, "loop": true, "invariant": true, "top-invariant": true,
 	"decreases": true, "assert": true, "alias": true, "props": true, "recvnonnil": true, "ghostset": true,
-	"end": true, "opaque": true, "witness": true, "trusted-pure": true, "crlf-discipline": true, "crlf-exempt": true, "replay-go": true, "appends-raw": true, "fresh-override": true, "fresh-except": true, "macro": true, "ghostset-at-entry": true, "abstract-too": true, "replay-import": true, "noinline": true, "replay-decl": true, "unreachable-return": true, "frame-prop": true, "immutable": true,
+	"end": true, "opaque": true, "witness": true, "trusted-pure": true, "crlf-discipline": true, "crlf-exempt": true, "replay-go": true, "appends-raw": true, "fresh-override": true, "fresh-except": true, "macro": true, "ghostset-at-entry": true, "abstract-too": true, "replay-import": true, "noinline": true, "replay-decl": true, "unreachable-return": true, "frame-prop": true, "immutable": true, "assumed-ensures": true, "forbid": true,
 }
 
 // parseContractFile reads the //@ lines of one file.
@@ -490,11 +494,12 @@ func (p *contractParser) line(t string, no int) error {
 			return err
 		}
 		c.Requires = append(c.Requires, cl)
-	case "ensures", "top-ensures":
+	case "ensures", "top-ensures", "assumed-ensures":
 		cl, err := p.clause(rest, no, kw == "top-ensures")
 		if err != nil {
 			return err
 		}
+		cl.Assumed = kw == "assumed-ensures"
 		c.Ensures = append(c.Ensures, cl)
 	case "modifies":
 		items, all, err := p.modifies(rest)
@@ -638,6 +643,27 @@ func (p *contractParser) line(t string, no int) error {
 			cl.Prop = tag
 		}
 		c.Asserts = append(c.Asserts, CallAssert{Callee: callee, Ordinal: ord, Clause: cl, After: hd[0] == "after", Direct: direct})
+	case "forbid":
+		// forbid [@Cxx] CALLEE : the function (and what is inlined into it) makes no call of that name; unlike an
+		// `assert before CALLEE: false` the clause does not have to bind to an existing call
+		tag := ""
+		if strings.HasPrefix(rest, "@") {
+			if k := strings.IndexAny(rest, " \t"); k > 0 {
+				tag, rest = rest[1:k], strings.TrimSpace(rest[k+1:])
+			}
+		}
+		callee := strings.TrimSpace(rest)
+		if callee == "" || strings.ContainsAny(callee, " \t:") {
+			return fmt.Errorf("forbid needs a callee name")
+		}
+		cl, err := p.clause("false", no, false)
+		if err != nil {
+			return err
+		}
+		cl.Top = true
+		cl.Prop = tag
+		cl.Src = "forbid " + callee
+		c.Asserts = append(c.Asserts, CallAssert{Callee: callee, Ordinal: -1, Clause: cl, Forbid: true})
 	case "ghostset-at-entry":
 		as := strings.SplitN(rest, "=", 2)
 		if len(as) != 2 {
